@@ -17,15 +17,31 @@ import sqlfx
 
 PASS = re.compile(r"::(as_ref|to_bytes|to_repr|as_bytes|from|into|deref|to_i64_le_bytes|to_u64_le_bytes|"
                   r"to_le_bytes|borrow|clone|as_slice|copied|cloned|encode|as_inner|unwrap|as_mut)$")
-HASHER = re.compile(r"::hasher$")
-WRITE = re.compile(r"::(write_all|write_u8|write_u16_le|write_u32_le|write_u64_le|write_i64_le|update)$")
+HASHER = re.compile(r"::hasher$|blake2b_simd::Params::to_state$|core::vec::Vec::<T>::(new|with_capacity)$")
+VECNEW = re.compile(r"core::vec::Vec::<T>::(new|with_capacity)$")
+VEC_U8 = "core::vec::Vec<u8>"
+WRITE = re.compile(r"::(write_all|write_u8|write_u16_le|write_u32_le|write_u64_le|write_i64_le|update|"
+                   r"extend_from_slice)$")
+ONESHOT = re.compile(r"blake2b_simd::Params::hash$")
+
+
+def is_sink_ty(ty):
+    """a hash state or a byte buffer that is later hashed"""
+    t = re.sub(r"^(&('\w+ )?(mut )?)+", "", ty or "")
+    return "StateWrite" in t or t.startswith("blake2b_simd::State") or t == VEC_U8
 
 
 class DefUseL(defuse.DefUse):
+    MAXD = 60
+
     def origin_local(self, local, depth=0):
         o = defuse.DefUse.origin_local(self, local, depth)
         if o[0] == "call":
             return o + (local,)
+        if o == ("local", local):
+            d = self.single(local)
+            if d is not None and d[0] == "stmt" and d[2].rv.kind == "repeat" and d[2].rv.ops:
+                return ("agg", "repeat", [self.origin(d[2].rv.ops[0], depth + 1)])
         return o
 
 
@@ -120,7 +136,7 @@ class Maps:
         n = 0
         while op is not None and op.kind in ("copy", "move") and n < 8:
             n += 1
-            if not op.place.proj and "StateWrite" in self.b.local_ty(op.place.local) and \
+            if not op.place.proj and is_sink_ty(self.b.local_ty(op.place.local)) and \
                     not self.b.local_ty(op.place.local).startswith("&"):
                 return op.place.local
             d = self.du.single(op.place.local)
@@ -130,9 +146,11 @@ class Maps:
             if rv.kind in ("ref", "raw"):
                 pl = rv.place
                 if not pl.proj:
-                    if "StateWrite" in self.b.local_ty(pl.local):
+                    if is_sink_ty(self.b.local_ty(pl.local)) and not self.b.local_ty(pl.local).startswith("&"):
                         return pl.local
-                    return None
+                    import zf
+                    op = zf.Op("copy", zf.Place([pl.local]))
+                    continue
                 if tuple(pl.proj) == ("*",):
                     import zf
                     op = zf.Op("copy", zf.Place([pl.local]))
@@ -173,6 +191,11 @@ class Maps:
         if k == "proj":
             return "%s%s" % (self.describe(o[1], depth + 1), o[2] if o[2].startswith("[") else "")
         if k == "agg":
+            if o[1].startswith("closure:") and not o[2] and depth < 12:
+                g = self.w.fns.get(o[1][len("closure:"):])
+                if g is not None and g.body.argc == 2:
+                    return "|x| " + re.sub(r"^\(?x\)?\.0\b", "x", Maps(self.w, g, self.version, self.vadt).result().replace(
+                        short_ty(g.body.local_ty(2)) or "\0", "x"))
             if o[1] == "array":
                 return "[%s]" % ", ".join(self.describe(x, depth + 1) for x in o[2])
             return "%s{%s}" % (o[1].rsplit("::", 1)[-1], ", ".join(self.describe(x, depth + 1) for x in o[2]))
@@ -212,7 +235,16 @@ class Maps:
             if PASS.search(name) and o[2]:
                 return self.describe(o[2][0], depth + 1)
             if last in ("index", "index_mut") and len(o[2]) == 2:
-                return self.describe(o[2][0], depth + 1) + _range_txt(defuse.strip_refs(o[2][1]))
+                ix = defuse.strip_refs(o[2][1])
+                if ix[0] != "agg":
+                    return "%s[%s]" % (self.describe(o[2][0], depth + 1), self.describe(ix, depth + 1))
+                return self.describe(o[2][0], depth + 1) + _range_txt(ix)
+            if ONESHOT.search(name) and len(o[2]) == 2:
+                l = self._buffer_local(o[2][1])
+                if l is not None:
+                    return "#h%d" % l
+            if VECNEW.search(name) and len(o) > 3 and self.b.local_ty(o[3]) == VEC_U8:
+                return "#h%d" % o[3]
             if last == "finalize" and o[2]:
                 inner = defuse.strip_refs(o[2][0])
                 if inner[0] == "call" and HASHER.search(inner[1]) and len(inner) > 3:
@@ -239,6 +271,10 @@ class Maps:
         nm = self.b.local_name(local)
         if not defs or depth > 6:
             return nm or "_%d" % local
+        if self.du.single(local) is not None and depth < 6:
+            o = self.du.origin_local(local)
+            if o[0] != "local":
+                return self.describe(o, depth + 1)
         alts = []
         for kind, bi, x in defs:
             if kind == "call":
@@ -272,7 +308,7 @@ class Maps:
             t = b.blocks[sw].term
             arms = list(t.arms) + [("else", t.otherwise)]
             inside = [v for v, tb in arms if tb is not None and (tb == bb or b.dominates(tb, bb))
-                      and tb in self.feasible]
+                      and tb in self.feasible and self._edge_only(sw, tb)]
             live = [v for v, tb in arms if tb is not None and tb in self.feasible]
             if len(inside) == 1 and len(live) > 1:
                 cond = self.describe(self.du.origin(t.discr), 3)
@@ -286,6 +322,50 @@ class Maps:
             cur = sw
         return tuple(reversed(out))
 
+    def _preds(self):
+        if not hasattr(self, "_pred"):
+            self._pred = {}
+            for bi, blk in enumerate(self.b.blocks):
+                if blk.cleanup:
+                    continue
+                for x in blk.term.succs():
+                    self._pred.setdefault(x, set()).add(bi)
+        return self._pred
+
+    def _edge_only(self, sw, tb):
+        """tb is entered only through the edge sw -> tb (other predecessors are inside the region tb
+        dominates, i.e. loop back edges) — then "tb dominates x" means that edge was taken"""
+        return all(p == sw or self.b.dominates(tb, p) for p in self._preds().get(tb, ())
+                   if p in self.feasible)
+
+    def exclusive_exhaustive(self, bbs):
+        """the blocks are pairwise unreachable from each other and every path from their closest
+        common dominator to a return passes through one of them: exactly one of them runs"""
+        b = self.b
+        bbs = list(bbs)
+        for x in bbs:
+            r = set()
+            for sx in b.succs(x):
+                r |= b.reachable(sx)
+            if any(y in r for y in bbs):
+                return False
+        doms = [b.dominators().get(x, set()) | {x} for x in bbs]
+        common = set.intersection(*doms) if doms else set()
+        if not common:
+            return False
+        d = max(common, key=lambda c: len(b.dominators().get(c, set())))
+        seen, work = set(), [d]
+        while work:
+            x = work.pop()
+            if x in seen or x in bbs or x not in self.feasible:
+                continue
+            seen.add(x)
+            t = b.blocks[x].term
+            if t.kind == "return":
+                return False
+            work.extend(t.succs())
+        return True
+
     # ---- the map
     def hashers(self):
         out = []
@@ -295,6 +375,17 @@ class Maps:
                 continue
             if t.dest is None:
                 continue
+            p0 = t.callee.target_p()
+            if p0.endswith("::to_state"):
+                out.append({"local": t.dest.local, "pers": self._params_pers(self.du.origin(t.args[0])),
+                            "line": t.span.line, "writes": [], "bbs": []})
+                continue
+            if VECNEW.search(p0):
+                if t.dest.proj or self.b.local_ty(t.dest.local) != VEC_U8:
+                    continue
+                out.append({"local": t.dest.local, "pers": "buf%d" % len([h for h in out if str(h["pers"]).startswith("buf")]),
+                            "line": t.span.line, "writes": [], "bbs": []})
+                continue
             o = defuse.strip_refs(self.du.origin(t.args[0]))
             pers = None
             if o[0] == "constdef":
@@ -303,12 +394,17 @@ class Maps:
                 g = self.w.fns.get(next((f.id for f in self.w.by_p.get(o[1], [])), None))
                 r = self._eval_helper(g) if g is not None and self.version else None
                 pers = r[1].rsplit("::", 1)[-1] if r and r[0] == "const" else "fn:" + o[1].rsplit("::", 1)[-1]
-            elif o[0] == "local":
+            elif o[0] == "local" or (o[0] == "agg" and o[1] == "repeat"):
                 pers = self._built_personal(o[1])
             else:
                 pers = self.describe(o)
-            out.append({"local": t.dest.local, "pers": pers, "line": t.span.line, "writes": []})
+            out.append({"local": t.dest.local, "pers": pers, "line": t.span.line, "writes": [], "bbs": []})
         by_local = {h["local"]: h for h in out}
+        for bb, t in b.calls():
+            if bb in self.feasible and t.callee.indirect is None and ONESHOT.search(t.callee.target_p()):
+                l = self._buffer_local(self.du.origin(t.args[1]))
+                if l in by_local:
+                    by_local[l]["pers"] = self._params_pers(self.du.origin(t.args[0]))
         events = []
         for bb, t in b.calls():
             if bb not in self.feasible or t.callee.indirect is not None:
@@ -334,13 +430,16 @@ class Maps:
                             val = "each(%s: %s)" % (src, ", ".join(inner))
             elif re.search(r"::write$", p):
                 val = "%s.write()" % (self.describe(self.du.origin(others[0])) if others else "?")
+            elif self.w.by_p.get(p) and re.search(r"::write_\w+$", p) and others:
+                val = "fn:%s(%s)" % (p.rsplit("::", 1)[-1], ", ".join(self.describe(self.du.origin(a)) for a in others))
             else:
                 continue
             g = [x for x in self.guards(bb) if "Try" not in x and "branch" not in x and "loop" not in x
                  and "unwrap" not in x and "next" not in x]
-            events.append(((t.span.line, t.span.col), h, val, bb in self.cyc, g))
+            events.append(((t.span.line, t.span.col, bb), h, val, bb in self.cyc, g))
         for pos, h, val, loop, g in sorted(events, key=lambda e: e[0]):
             by_local[h]["writes"].append((("*" if loop else "") + val, tuple(g)))
+            by_local[h]["bbs"].append(pos[2])
         # references between hashers become personalisation names
         names = {"#h%d" % h["local"]: "#" + str(h["pers"]) for h in out}
         for h in out:
@@ -361,17 +460,59 @@ class Maps:
                 out.append("%s.write()" % self.describe(self.du.origin(t.args[0])))
         return out
 
+    def _buffer_local(self, o):
+        """the Vec<u8> local behind `&data` / `&*data` / `data.as_slice()`"""
+        n = 0
+        while isinstance(o, tuple) and o and n < 12:
+            n += 1
+            if o[0] in ("ref", "deref"):
+                o = o[1]
+            elif o[0] == "call" and VECNEW.search(o[1]) and len(o) > 3 and self.b.local_ty(o[3]) == VEC_U8:
+                return o[3]
+            elif o[0] == "call" and PASS.search(o[1]) and o[2]:
+                o = o[2][0]
+            else:
+                return None
+        return None
+
+    def _params_pers(self, o):
+        """personalisation of a blake2b Params builder chain"""
+        n = 0
+        while isinstance(o, tuple) and o and n < 12:
+            n += 1
+            if o[0] in ("ref", "deref"):
+                o = o[1]
+            elif o[0] == "call" and o[1].endswith("Params::personal") and len(o[2]) == 2:
+                a = defuse.strip_refs(o[2][1])
+                while a[0] == "call" and PASS.search(a[1]) and a[2]:
+                    a = defuse.strip_refs(a[2][0])
+                if a[0] == "constdef":
+                    return a[1].rsplit("::", 1)[-1]
+                if a[0] == "local" or (a[0] == "agg" and a[1] == "repeat"):
+                    return self._built_personal(a[1])
+                return self.describe(a)
+            elif o[0] == "call" and o[1].startswith("blake2b_simd::Params::") and o[2]:
+                o = o[2][0]
+            else:
+                return None
+        return None
+
     def _built_personal(self, local):
         """personal = PREFIX || branch id: which prefix constant was copied in"""
         for bb, t in self.b.calls():
             if t.callee.indirect is None and t.callee.target_p().endswith("::copy_from_slice"):
                 dst = defuse.show(self.du.origin(t.args[0]))
-                if "_%d" % local in dst or True:
+                if True:
                     o = defuse.strip_refs(self.du.origin(t.args[1]))
                     if o[0] == "constdef":
                         tail = [self.describe(self.du.origin(t2.args[1])) for _b2, t2 in self.b.calls()
                                 if t2.callee.indirect is None and t2.callee.target_p().endswith("::write_u32_le")
                                 and "index_mut" in defuse.show(self.du.origin(t2.args[0]))]
+                        if not tail:
+                            tail = [self.describe(self.du.origin(t2.args[1])) for _b2, t2 in
+                                    sorted(self.b.calls(), key=lambda x: (x[1].span.line, x[1].span.col))
+                                    if t2.callee.indirect is None and t2 is not t and
+                                    t2.callee.target_p().endswith("::copy_from_slice")]
                         return "%s||%s" % (o[1].rsplit("::", 1)[-1], (tail or ["?"])[0])
         return "built"
 
